@@ -1121,3 +1121,62 @@ def nan_placeholder_rule(ctx, rid):
         else:
             raise AnalysisError("idiom changed: nan_like_result returns `%s`, not a recognised NaN / None constructor" % norm(r.value)[:80])
     return rr
+
+
+def df_single_output_rule(ctx, rid):
+    """C03.R8 (sibling cross-check): the Dataset labeller normalises the
+    'one declared output = the result itself' convention through
+    parse_combo_results before pairing names with results; the DataFrame
+    labeller must do the same (or branch on the number of outputs).  Pairing
+    `zip(var_names, result)` on the raw result splits an iterable single
+    output (array, string) and keeps only its first element."""
+    rr = ctx.rule(rid, "DataFrame rows: names are paired with the result only after the single-output convention was normalised (as the Dataset sibling does)", floor=2)
+    prog = ctx.prog
+    ds = prog.need_func(CR + ".results_to_ds")
+    df = prog.need_func(CR + ".results_to_df")
+    ctx.touch(ds), ctx.touch(df)
+    NORMALISER = PREP + ".parse_combo_results"
+    uses = [c for n, c, nm in all_calls(ctx, ds) if nm == NORMALISER]
+    need(uses, "anchor lost: results_to_ds no longer normalises through parse_combo_results")
+    rr.ok("results_to_ds: results = parse_combo_results(results, var_names)")
+    vn = [p_ for p_ in df.positional if "var_names" in p_]
+    need(len(vn) == 1, "anchor lost: var_names parameter of results_to_df")
+    vn = vn[0]
+    zips = [c for c in ast.walk(df.node) if isinstance(c, ast.Call) and norm(c.func) == "zip" and len(c.args) == 2 and norm(c.args[0]) == vn]
+    if not zips:
+        direct = [s for s in ast.walk(df.node) if isinstance(s, ast.Assign) and isinstance(s.targets[0], ast.Subscript) and vn in norm(s.targets[0].slice)]
+        if direct:
+            raise AnalysisError("idiom changed: results_to_df pairs names and results without zip")
+        raise AnalysisError("anchor lost: results_to_df does not pair %s with the results" % vn)
+
+    def normalised(e, depth=0):
+        if isinstance(e, ast.Call) and callee_name(ctx, df, e) == NORMALISER:
+            return True
+        if isinstance(e, ast.Name) and depth < 3:
+            d = [v for _, v in assignments_to(df, e.id) if v is not None]
+            return bool(d) and all(normalised(v, depth + 1) for v in d)
+        return False
+
+    def branch_on_count(node):
+        p = getattr(node, "_parent", None)
+        while p is not None and p is not df.node:
+            if isinstance(p, ast.If) and ("len(%s)" % vn) in norm(p.test):
+                return True
+            p = getattr(p, "_parent", None)
+        return False
+    loopvars = set()
+    for lp in ast.walk(df.node):
+        if isinstance(lp, ast.For):
+            loopvars |= {x.id for x in ast.walk(lp.target) if isinstance(x, ast.Name)}
+    for z in zips:
+        x = z.args[1]
+        if normalised(x) or branch_on_count(z):
+            rr.ok("zip(%s, %s): single-output convention normalised first" % (vn, norm(x)[:50]))
+        elif isinstance(x, ast.Name) and x.id in loopvars:
+            rr.bad(ctx.finding(rid, df, z, "`%s` pairs the names with the raw result: with one declared output an iterable result (1-d array, string) is split and the row keeps only its first element ('hello' -> 'h'); "
+                               "the Dataset sibling normalises through parse_combo_results first" % norm(z), construct="single-output-split"), "single output")
+        elif isinstance(x, (ast.List, ast.Tuple)) and len(x.elts) == 1:
+            rr.ok("zip(%s, [%s]): explicit single-output wrap (fallback)" % (vn, norm(x.elts[0])))
+        else:
+            raise AnalysisError("idiom changed: results_to_df pairs %s with `%s`" % (vn, norm(x)))
+    return rr
